@@ -179,6 +179,30 @@ def run(ctx, R, tier):
     R.check(bool(closes) and bool(forgets), "C03-R2", "_pyroRelease|close-and-forget", "_pyroRelease closes the connection and stores None", rel_fn.loc(),
             "_pyroRelease no longer closes the connection and resets self._pyroConnection to None")
 
+    writers = sorted({g.qualname for g in p.functions.values() if g.module.name == "Pyro5.client" for st, t, k in stores_in(g.node) if unparse(t).endswith("._pyroSeq")})
+    allowed_w = {"Pyro5.client.Proxy.__init__", "Pyro5.client.Proxy.__setstate__", "Pyro5.client.Proxy._pyroInvoke"}
+    R.check(set(writers) <= allowed_w, "C03-R3", "_pyroSeq|writers", "the sequence counter is written only at construction and by the per-request increment", f.loc(),
+            "%s also write(s) the sequence counter: after a release/reconnect the numbering can repeat, so a stale reply of an earlier call passes the sequence check" % sorted(set(writers) - allowed_w))
+    # server: flags / seq / serializer of the request are known before anything in the guarded region can fail
+    hq0 = ctx.fn("Pyro5.server.Daemon.handleRequest")
+    hc0 = ctx.cfg(hq0)
+    xf0 = ctx.exc_filter(hq0)
+    cat0 = [t for t in hq0.node.body if isinstance(t, ast.Try) and any(handler_is_catch_all(h_) for h_ in t.handlers)]
+    if not cat0:
+        raise AnalysisError("handleRequest: catch-all try vanished")
+    from ..engine.context import locals_assigned as _la
+    for attr in ("flags", "seq", "serializer_id"):
+        vs = _la(hq0, lambda v, attr=attr: isinstance(v, ast.Attribute) and v.attr == attr and isinstance(v.value, ast.Name))
+        stn = [n for n in hc0.nodes if n.kind == "stmt" and isinstance(n.ast, ast.Assign) and isinstance(n.ast.value, ast.Attribute) and n.ast.value.attr == attr
+               and any(isinstance(t, ast.Name) and t.id in vs for t in n.ast.targets) and any(_inside_try(n.ast, cat0[-1]) for _ in [0])]
+        risky = [n for n in hc0.nodes if n.kind in ("stmt", "test", "for", "with") and n.ast is not None and _inside_body(n.ast, cat0[-1]) and
+                 any(e.kind == "exc" and xf0(e) for e in n.succ)]
+        ok = bool(stn) and all(any(hc0.dominates(s_, r_) for s_ in stn) for r_ in risky if r_ not in stn)
+        R.check(ok, "C03-R5", "handleRequest|request-%s-known-before-failure" % attr, "the request's %s is stored in its local before any statement of the guarded region that can raise" % attr,
+                hq0.loc(stn[0].ast) if stn else hq0.loc(),
+                "a statement that can fail (e.g. deserialisation) runs before the request's %s is remembered: the error path then works with the initial value "
+                "(a oneway request gets an error reply / the reply carries seq 0)" % attr)
+
     # ---------------------------------------------------------------- R8
     cc = ctx.calls_to(f, "Pyro5.client.Proxy.__pyroCreateConnection")
 
@@ -369,6 +393,26 @@ def run(ctx, R, tier):
     ok = isinstance(arg, (ast.List, ast.Tuple)) and len(arg.elts) == 1 and ctx.resolves_to_object(arg.elts[0], f, "Pyro5.protocol.MSG_RESULT")
     R.check(ok, "C03-R7", "_pyroInvoke|accepts-only-MSG_RESULT", "the client accepts exactly [MSG_RESULT] as a call reply", f.loc(recv_calls[0]),
             "the client accepts other message types as the answer of a call: `%s`" % (unparse(arg) if arg is not None else "None"))
+
+
+def _inside_try(node, t):
+    n = node
+    while n is not None:
+        if n is t:
+            return True
+        n = getattr(n, "_parent", None)
+    return False
+
+
+def _inside_body(node, t):
+    n = node
+    child = node
+    while n is not None:
+        if n is t:
+            return child in t.body
+        child = n
+        n = getattr(n, "_parent", None)
+    return False
 
 
 def echo_ok(ctx, g, call, arg, attr, depth=0):
